@@ -102,3 +102,12 @@ func TestReverseNotSequence(t *testing.T) {
 		Panics: true,
 	}).Test(t)
 }
+
+func TestReverseVectorNotShared(t *testing.T) {
+	(&sliptest.Function{
+		Source: `(let* ((v (vector 1)) (r (reverse v)))
+                   (setf (aref r 0) 9)
+                   (list (coerce v 'list) (coerce r 'list)))`,
+		Expect: "((1) (9))",
+	}).Test(t)
+}
